@@ -59,6 +59,7 @@ pub fn step_strategy() -> impl Strategy<Value = Step> {
         3 => prop_oneof![(0.0f32..4.0), log_uniform(-4.0, 2.5)].prop_map(Step::Arb),
         4 => (-2i8..=2).prop_map(|off| Step::ToEnd { off }),
         1 => (-2i8..=2).prop_map(|cycles| Step::ToEndCycles { cycles }),
+        1 => (-3i8..=3).prop_map(|ulps| Step::ToEndUlps { ulps }),
     ]
 }
 
@@ -178,6 +179,15 @@ impl<'a> Exec<'a> {
             Step::Zero => (0.0, true),
             Step::Grid(n) => ((n as f64 * GRID_S) as f32, true),
             Step::Arb(x) => (x.max(0.0), false),
+            Step::ToEndUlps { ulps } => {
+                // land `ulps` f32 steps away from the end instant (only meaningful right after entering the state)
+                let one = (GRID_S as f32, true);
+                let Some(total) = self.desc.total(self.model.state) else { return one };
+                if !total.is_finite() || self.t.secs != 0.0 || !(total > 0.0) {
+                    return one;
+                }
+                (step32(total as f32, ulps as i32).max(0.0), false)
+            }
             Step::ToEndCycles { cycles } => {
                 let one = (GRID_S as f32, true);
                 let Some(total) = self.desc.total(self.model.state) else { return one };
@@ -320,7 +330,10 @@ impl<'a> Exec<'a> {
                         return Err(format!("{what}: is_ended() = {got} at time-in-state {t} s with total duration {tt} s (exact domain: both exactly representable)"));
                     }
                 } else {
-                    let band = 2.0 * (ulp32(tt as f32) as f64 + ulp32(t as f32) as f64) + self.t.unc + 2e-9;
+                    // what a faithful implementation may legitimately round: the time in state to
+                    // the nearest f32 (half an ulp), and - when the total is not itself representable -
+                    // the f32 computation of delay + cycle x (repeats+1)
+                    let band = 0.5 * ulp32(t as f32) as f64 + if totals_exact { 0.0 } else { 1.5 * ulp32(tt as f32) as f64 } + self.t.unc + 1e-9;
                     if (t - tt).abs() <= band {
                         obs.label(14);
                         obs.near += 1;
@@ -705,6 +718,7 @@ pub fn c07_strategy() -> impl Strategy<Value = HistCase> {
     let op = prop_oneof![
         4 => step_strategy().prop_map(AOp::Adv),
         4 => (-2i8..=2).prop_map(|off| AOp::Adv(Step::ToEnd { off })),
+        1 => (-3i8..=3).prop_map(|ulps| AOp::Adv(Step::ToEndUlps { ulps })),
         2 => (0u8..5).prop_map(AOp::Set),
     ];
     (anim_desc_strategy(), prop::collection::vec(op, 1..=20)).prop_map(|(desc, ops)| HistCase { desc, ops })
@@ -1027,7 +1041,7 @@ pub struct C06TrainCase {
 
 fn c06_train_judge(c: &C06TrainCase, obs: &mut Obs) -> Result<(), String> {
     let desc = AnimDesc { states: vec![Some(vec![c.tl.clone()]), None, None, None, None], initial_state: 0, initial_values: c.initial, builder_order: 0 };
-    let dt: f32 = [1.0f32 / 60.0, 1.0 / 144.0, 1.0 / 30.0, 0.016, 0.0005, 0.0009][c.rate as usize % 6];
+    let dt: f32 = [1.0f32 / 60.0, 1.0 / 144.0, 1.0 / 30.0, 0.016, 0.0005, 0.0009, 1.0e-7, 5.0e-8][c.rate as usize % 8];
     let mut a = desc.build();
     for _ in 0..c.frames {
         a.advance(dt);
@@ -1081,7 +1095,7 @@ pub fn c06(run: &mut Run) {
         run.tier.pick(20_000, 500_000),
         c06_long_judge,
     );
-    let train = (tl_strategy_animator(animator_timing_strategy()), 1u16..=3600, 0u8..6, vals_strategy()).prop_map(|(tl, frames, rate, initial)| C06TrainCase { tl, frames, rate, initial });
+    let train = (tl_strategy_animator(animator_timing_strategy()), 1u16..=3600, 0u8..8, vals_strategy()).prop_map(|(tl, frames, rate, initial)| C06TrainCase { tl, frames, rate, initial });
     run.prop(
         "c06_frame_trains",
         "proptest: n (<=3600) frames of 1/60, 1/144, 1/30, 0.016, 0.0005 or 0.0009 s versus one advance of the real sum; both judged against the f64 model at the real sum with tolerance n*1ns + ulp (arbitrary, not exactly representable steps); non-trivial = judged strictly inside a changing segment",
